@@ -504,7 +504,8 @@ def low_rank_root(ctx):
     else:
       e_src = 'e0'
     # inv_e = where(<zero guard>, 0, max(e, ridge)^(-1/p)): the power by formula, the guard by point evaluation (shared with C01.E1)
-    from .C01 import _guarded_inverse_power
+    from .C01 import _guarded_inverse_power, clamp_is_added_ridge
+    clamp_is_added_ridge(ctx, 'C10.R4', ev, fi, ridge, True, tag, cmpr)
     pw_exp = spec_term(ev, f'jnp.power(jnp.maximum({e_src}, ridge), -1.0 / p)', env)
     W = _guarded_inverse_power(ctx, fi, a['eigvals'], pw_exp, spec_term(ev, e_src, env), ridge, tag, cmpr)
     if W is None:
